@@ -43,6 +43,22 @@ CHECKS = {
             "the directory and a decoder part that depends only on include/exclude; the translator's table of @decoder-marked functions (from the source text) is the default registry. Correspondence with registry.py on all "
             "singleton / pair / random selections and generated directories; oracle from the property text.",
             "pkgutil / inspect / os.walk enumeration are oracles (their sorted order is reproduced by the translator and the model's sorting).", "4 C18"),
+    "C13": ("Coq theorems: RFC 4648 round trip for every payload; CPython's lenient a2b_base64 (modelled from experiment) agrees with the RFC decoding on canonical text and skips junk; exact characterisation of the nodes "
+            "emitted by atob / Base64Decode / FromBase64String / bare base64 (cleaning of line breaks and HTML escapes, the acceptance rules as an iff) / hex / FromHexString / xor children / PowerShell byte arrays, for arbitrary match lists "
+            "with in-bounds spans; the regexes are regenerated from the source each run and the decoders run the model's own matcher. Correspondence per decoder + node oracle on every encoding.* / decoded.* / cipher.* node of decoder outputs "
+            "and whole scans + converse check (acceptable payloads decoded as one unit with exact span).",
+            "PARTIAL for the converse half: that the regex engine selects exactly the encoded span for open-ended bare forms is validated by the converse probe, not proved (known finding F11 lives there). xortool is an oracle.", "4 C13"),
+    "C14": ("Coq theorems END TO END for every input (regex-dependent steps discharged by vm_compute of a verified product exploration on the regex terms regenerated from the source): find_xml_hex / find_chr / find_unescape / find_utf16 never raise and every "
+            "node decodes exactly the escaped expression it covers (references -> bytes, chr(n) -> UTF-8 of n with surrogates skipped, percent-decoding, UTF-16LE Latin-1 -> UTF-8); codec laws (UTF-8 round trip, unquote/quote, int parsing). "
+            "Correspondence per decoder on regex-sampled, dedicated and corpus inputs; node oracle on all four labels.",
+            "Matcher fuel: theorems are disjunctions `Hang or Ok ...` (Hang = the model's matcher ran out of fuel; the real engine would still be backtracking). Model of the regex engine tied by the finditer probe.", "4 C14"),
+    "C15": ("Coq theorems: s[-2:0:-1] of a quoted literal is its contents reversed (all contents); bytes.replace is the unique leftmost non-overlapping substitution of every occurrence; the four replace dialects, reverse / StrReverse and concat emit "
+            "exactly the evaluated string with the dialect's type / label and the match span, for arbitrary in-bounds match lists; get_closing_brace balance spec. Correspondence per decoder; node oracle restricted to the property's domain (quote-free, non-operator literals).",
+            "Span exactness by the regex engine is validated (probes), not proved, for open-ended concat chains.", "4 C15"),
+    "C16": ("Coq theorems: the index loop of strip_carets equals the cmd.exe specification on EVERY byte string (never raises / hangs); label iff changed; the parenthesis cut; cmd result span / value incl. an exact characterisation of the quote repair; "
+            "PowerShell span in the three context cases, the four node shapes, the encoded-command value; END TO END: find_cmd_strings and find_powershell_strings never raise on any input (regex shape by reflection). "
+            "Correspondence: strip_carets exhaustively over {^ \" CR LF a space}^<=6/8 against model and specification; both decoders on generated command texts.",
+            "Known finding F6 (no-context PowerShell end = len(data) - start, pinned by the test-suite) is modelled as coded; ps_end_ge_start_except_no_context proves it is the only branch that can misplace the end.", "4 C16"),
     "C17": ("Coq theorems (all keyword lists, all data): find_all terminates and equals the delimiter-filtered greedy left-to-right occurrence list, characterised declaratively (sound, spaced, complete); "
             "hit fields; MixedCase iff. Correspondence (extracted model vs keyword.py on exhaustive small and random inputs) and an independent oracle using the stdlib re module.",
             "Hand-written models of bytes.lower/find/isalnum/isupper/islower and chr().isupper for code points < 256, pinned by probes.", "4 C17"),
